@@ -15,6 +15,7 @@ package main
 
 import (
 	"crypto/x509"
+	"encoding/hex"
 	"fmt"
 	"unicode/utf16"
 
@@ -86,6 +87,9 @@ func (g *c03) genNames() {
 	emit("empty", []byte{0x30, 0})
 	emit("no-octets", nil)
 	emit("example", fixedName("Example CA"))
+	// the octets the Coq writer produces for Proofs/NameDer.v's ex_name (Example ex_name_octets)
+	coqName, _ := hex.DecodeString("303d310b3009060355040613025553312e301006035504030c09446f652c204a616e65300b06042a0304051603612b62300d060355040a1e0600e9d83dde00")
+	emit("coq-encoded", coqName)
 
 	// ---- every string type, contents valid and invalid for it; non-string values ----
 	texts := []string{"", "a", "Example CA", " lead", "trail ", " ", "  ", "#hash", "a#b", "a,b+c\"d\\e<f>g;h", "a=b", "é", "日本語", "\x00", "a\x00b",
